@@ -40,7 +40,7 @@ def _r(x):
     return toreal(lift(x))
 
 
-def mk_ghe(e, tag):
+def mk_ghe(e, tag, end_month=24, loads=None):
     """a GHE built by the real GHE.__init__ (so every attribute the class sets exists); the pipe model, the radial model and
     the hybrid loads are recorders whose outputs are uninterpreted functions of the borehole height they were given"""
     import ghedesigner.ground_heat_exchangers as G
@@ -77,9 +77,9 @@ def mk_ghe(e, tag):
     shadow(G, 'get_bhe_object', lambda *a, **k: Bhe())
     shadow(G, 'RadialNumericalBH', Radial)
     shadow(G, 'HybridLoad', lambda *a, **k: NS(load=c09.VArr([0, 0, 1.5, -2.0, 0.5]), hour=c09.VArr([0, 0, 700.0, 1400.0, 17520.0])))
-    sp = NS(start_month=1, end_month=24, max_EFT_allowable=35.0, min_EFT_allowable=5.0, max_height=135.0, min_height=60.0)
+    sp = NS(start_month=1, end_month=end_month, max_EFT_allowable=35.0, min_EFT_allowable=5.0, max_height=135.0, min_height=60.0)
     ghe = G.GHE(1.2, 5.0, BHPipeType.SINGLEUTUBE, NS(rho=998.0, cp=4000.0), borehole, NS(), NS(), NS(k=2.0, rhoCp=2.3e6, ugt=18.0),
-                NS(bore_locations=[(0, 0), (5, 0), (0, 5), (5, 5)]), sp, [0.0] * 8760)
+                NS(bore_locations=[(0, 0), (5, 0), (0, 5), (5, 5)]), sp, [0.0] * 8760 if loads is None else loads)
 
     def grab(b_over_h):
         return Sym(GARG2(_r(b_over_h), _r(ghe.radial_numerical.sts))), None
@@ -109,18 +109,38 @@ def do_op(e, ghe, op, h):
     raise ValueError(op)
 
 
-def ghe_history_fn(prefix_ops, final_op):
+def shared_loads_fn(first_months, second_months, op):
+    """two exchangers built from the caller's one hourly-loads list (as the manager and the searches do); the second one must behave
+    as if it had been built from a fresh copy of the list"""
+    def fn(e):
+        H = e.real('H', 20, 400)
+        h0 = e.real('h0', 20, 400)
+        loads = [0.0] * 8760
+        a = mk_ghe(e, 'a', end_month=first_months, loads=loads)
+        try:
+            do_op(e, a, op, h0)
+        except Exception:  # noqa: BLE001
+            pass
+        b = mk_ghe(e, 'b', end_month=second_months, loads=loads)
+        rb = do_op(e, b, op, H)
+        c = mk_ghe(e, 'c', end_month=second_months)
+        rc = do_op(e, c, op, H)
+        return conj([rb[0] == rc[0], rb[1] == rc[1], len(b.times) == len(c.times), len(loads) == 8760, all(x == 0.0 for x in loads[:3])])
+    return fn
+
+
+def ghe_history_fn(prefix_ops, final_op, end_month=24):
     def fn(e):
         H = e.real('H', 20, 400)
         hs = [e.real('h%d' % i, 20, 400) for i in range(len(prefix_ops))]
-        a = mk_ghe(e, 'a')
+        a = mk_ghe(e, 'a', end_month=end_month)
         for op, h in zip(prefix_ops, hs):
             try:
                 do_op(e, a, op, h)
             except Exception:  # noqa: BLE001 - an earlier operation may fail (e.g. zero excess in solve_root); the object is used afterwards all the same
                 pass
         ra = do_op(e, a, final_op, H)
-        b = mk_ghe(e, 'b')
+        b = mk_ghe(e, 'b', end_month=end_month)
         rb = do_op(e, b, final_op, H)
         return conj([ra[0] == rb[0], ra[1] == rb[1], len(a.times) == len(b.times), len(a.hp_eft) == len(b.hp_eft)])
     return fn
@@ -577,6 +597,14 @@ def units(tier, seed):
     us = []
     ops = ['hybrid', 'hourly', 'size']
     prefixes = [()] + [(o,) for o in ops] + ([(a, b) for a in ops for b in ops] if tier == 'thorough' else [('hybrid', 'size'), ('size', 'hourly'), ('hourly', 'hybrid')])
+    # horizons that are not whole years (the hourly branch derives its number of hours from the length of the load list), and
+    # exchangers that share the caller's load list
+    for months in (18, 7):
+        us.append(Unit('ghe_%dmonths_hourly_then_hourly' % months, ghe_history_fn(('hourly',), 'hourly', end_month=months), None, ghe_setup, F1,
+                       'horizon %d months; the same hourly simulation twice on one object against a fresh object; heights symbolic' % months, stubs=ST1))
+    for fm, sm, op in ((24, 12, 'hourly'), (18, 18, 'hourly'), (24, 12, 'hybrid')):
+        us.append(Unit('shared_loads_%d_then_%d_%s' % (fm, sm, op), shared_loads_fn(fm, sm, op), None, ghe_setup, F1,
+                       'two exchangers on one hourly-loads list (%d then %d months, %s) against one on a fresh list; the list itself unchanged' % (fm, sm, op), stubs=ST1))
     for pre in prefixes:
         for fin in ('hybrid', 'hourly'):
             us.append(Unit('ghe_%s_then_%s' % ('_'.join(pre) or 'nothing', fin), ghe_history_fn(pre, fin), ghe_history_replay(pre, fin), ghe_setup, F1,
